@@ -296,6 +296,8 @@ type SendSpec struct {
 	Call     string // "", "ok", "revert", "hookfail", "nested-unknown", "agent:<dstChainName>", "privileged:<method>"
 	Callback common.Address
 	AgentFee *big.Int // fee of the onward packet for Call = "agent:…"
+	// FeeOption is the fee option carried in the packet and echoed in its acknowledgement
+	FeeOption uint64
 }
 
 // CallData builds (contractAddress, callData) for a call kind executed on destination chain dst.
@@ -382,7 +384,7 @@ func (w *World) Send(s SendSpec, wantDumps bool) *SendOutcome {
 	}
 	ccd := packettypes.CrossChainData{
 		DstChain: s.DstName, TokenAddress: s.Token, Receiver: s.Receiver, Amount: s.Amount,
-		ContractAddress: contract, CallData: data, CallbackAddress: s.Callback,
+		ContractAddress: contract, CallData: data, CallbackAddress: s.Callback, FeeOption: s.FeeOption,
 	}
 	fee := packettypes.Fee{TokenAddress: s.Token, Amount: s.Fee}
 	out := &SendOutcome{Spec: s}
@@ -419,8 +421,9 @@ func (w *World) Send(s SendSpec, wantDumps bool) *SendOutcome {
 // (version H-1) was committed at or after block `since` of chain `of`.
 func (w *World) ProofHeightsFor(on, of int, since int64) []int64 {
 	var out []int64
+	latest := w.Chains[on].ClientHeight(w.Chains[of].ChainID) // a governance upgrade may have re-anchored the client below stored heights
 	for _, h := range w.ConsensusHeights(on, of) {
-		if h-1 >= since {
+		if h-1 >= since && h <= latest {
 			out = append(out, h)
 		}
 	}
